@@ -38,7 +38,7 @@ Fixpoint run_calls (p : list op) (cs : list call) : list (list N) * list op :=
   match cs with
   | [] => ([], p)
   | c :: r =>
-      let '(p', res) := step p c in
+      let '(p', res) := step_go p c in
       let item := match res with
                   | Ok i => print_decZ i
                   | Err _ => [69]
